@@ -163,7 +163,7 @@ fn run_c01(run: &mut Run) {
     run.assume("a write error is accepted (the statement allows it); a writer refusing everything trips the vacuity guard");
     run.min_nontrivial = 50;
     run.literals("literals", &literal_words(literal_libs().len()), &c01_literal);
-    run.explore("roundtrip", run.tier.pick(300_000, 3_000_000), 1500, &c01_case);
+    run.explore("roundtrip", run.tier.pick(400_000, 6_000_000), 1500, &c01_case);
 }
 fn case_c01(sub: &str) -> Option<Box<CaseFn<'static>>> {
     match sub {
@@ -238,7 +238,7 @@ fn run_c02(run: &mut Run) {
     run.assume("R-gdsspec (harness/src/refmodel/gdsspec.rs) is the specification: record numbering, data types, fixed payload sizes, BNF order, big-endian integers, excess-64 reals (normalised, exact), STRANS bits 0x8000/0x0004/0x0002, single NUL pad on odd strings");
     run.min_nontrivial = 50;
     run.literals("literals", &literal_words(literal_libs().len()), &c02_literal);
-    run.explore("wellformed", run.tier.pick(300_000, 3_000_000), 1500, &c02_case);
+    run.explore("wellformed", run.tier.pick(400_000, 6_000_000), 1500, &c02_case);
 }
 fn case_c02(sub: &str) -> Option<Box<CaseFn<'static>>> {
     match sub {
@@ -328,7 +328,7 @@ fn run_c03(run: &mut Run) {
     run.assume("conformant = records in the order of the specification's BNF; streams in other orders, STRCLASS and double-NUL padding are outside the domain");
     run.min_nontrivial = 50;
     run.literals("literals", &literal_words(literal_libs().len()), &c03_literal);
-    run.explore("conformant", run.tier.pick(300_000, 3_000_000), 1500, &c03_case);
+    run.explore("conformant", run.tier.pick(400_000, 6_000_000), 1500, &c03_case);
 }
 fn case_c03(sub: &str) -> Option<Box<CaseFn<'static>>> {
     match sub {
